@@ -1,5 +1,6 @@
 import GomlVerif.Model.Syntax
 import GomlVerif.Model.Derive
+import GomlVerif.Model.FloatFmt
 /-
 Source-level meaning of the unified expression language: a definitional big-step
 interpreter with an observable world (stdout, reference store, spawned activations).
@@ -149,102 +150,9 @@ def goQuote (s : String) : String := String.ofList (Derive.goQuote goIsPrint s.t
 /-- the runtime's `json_escape_string`: `Derive.jsonQuote` -/
 def jsonEscape (s : String) : String := String.ofList (Derive.jsonQuote s.toList)
 
-/-! ### `%g`: the shortest decimal that reads back as the same float (strconv, `fmt == 'g'`, precision −1).
-Exact integer arithmetic on the IEEE-754 fields; validated against Rust's shortest digits by the C18
-check, not proved (no theorem mentions floats). -/
-
-/-- `10^k ≤ a/b < 10^(k+1)` for `a, b > 0` -/
-def decExp (a b : Nat) : Int :=
-  if a ≥ b then
-    let rec up (fuel : Nat) (q : Nat) (k : Nat) : Nat :=
-      match fuel with
-      | 0 => k
-      | fuel + 1 => if q < 10 then k else up fuel (q / 10) (k + 1)
-    Int.ofNat (up 400 (a / b) 0)
-  else
-    let rec down (fuel : Nat) (a : Nat) (j : Nat) : Nat :=
-      match fuel with
-      | 0 => j
-      | fuel + 1 => if a ≥ b then j else down fuel (a * 10) (j + 1)
-    Int.neg (Int.ofNat (down 400 (a * 10) 1))
-
-def natDigitsStr (n : Nat) : List Char := (toString n).toList
-
-def stripTrailingZeros (ds : List Char) : List Char :=
-  (ds.reverse.dropWhile (· == '0')).reverse
-
-/-- shortest digits and decimal point position (`0.d₁d₂… × 10^dp`) of `m·2^e`, where the reals that
-    round to it are those between `(4m−lo)·2^(e−2)` and `(4m+2)·2^(e−2)` (bounds included iff `m` even) -/
-def shortestDigits (m : Nat) (e : Int) (lo : Nat) : List Char × Int :=
-  let e2 := e - 2
-  let (pn, pd) : Nat × Nat := if e2 ≥ 0 then (2 ^ e2.toNat, 1) else (1, 2 ^ (-e2).toNat)
-  let v := 4 * m
-  let k := decExp (v * pn) pd
-  let incl := m % 2 == 0
-  let rec go (fuel : Nat) (p : Nat) : List Char × Int :=
-    match fuel with
-    | 0 => (natDigitsStr m, 0)
-    | fuel + 1 =>
-      -- scale by 10^(p-1-k)
-      let sc : Int := Int.ofNat p - 1 - k
-      let (tn, td) : Nat × Nat := if sc ≥ 0 then (10 ^ sc.toNat, 1) else (1, 10 ^ (-sc).toNat)
-      let num := v * pn * tn
-      let den := pd * td
-      let dF := num / den
-      let dC := dF + 1
-      let loN := (v - lo) * pn * tn
-      let hiN := (v + 2) * pn * tn
-      let inside (d : Nat) : Bool :=
-        if incl then loN ≤ d * den && d * den ≤ hiN else loN < d * den && d * den < hiN
-      let okF := inside dF
-      let okC := inside dC
-      if okF || okC then
-        let rem2 := 2 * (num - dF * den)
-        let d :=
-          if okF && okC then (if rem2 < den then dF else if rem2 > den then dC else if dF % 2 == 0 then dF else dC)
-          else if okF then dF else dC
-        let ds := natDigitsStr d
-        (stripTrailingZeros ds, k + 1 + (Int.ofNat ds.length - Int.ofNat p))
-      else go fuel (p + 1)
-  go 20 1
-
-def fmtG (neg : Bool) (ds : List Char) (dp : Int) : String :=
-  let sign := if neg then "-" else ""
-  let exp := dp - 1
-  let nd := ds.length
-  if exp < -4 || exp ≥ 6 then
-    let mant := match ds with
-      | [] => "0"
-      | d :: rest => if rest.isEmpty then String.singleton d else String.singleton d ++ "." ++ String.ofList rest
-    let a := exp.natAbs
-    sign ++ mant ++ "e" ++ (if exp < 0 then "-" else "+") ++ (if a < 10 then "0" else "") ++ toString a
-  else if dp ≤ 0 then
-    sign ++ "0." ++ String.ofList (List.replicate (-dp).toNat '0') ++ String.ofList ds
-  else
-    let dpn := dp.toNat
-    if nd ≤ dpn then sign ++ String.ofList ds ++ String.ofList (List.replicate (dpn - nd) '0')
-    else sign ++ String.ofList (ds.take dpn) ++ "." ++ String.ofList (ds.drop dpn)
-
-/-- `fmt.Sprintf("%g", x)` for a float64 (`bits = 64`) or a float32 held in a `Float` (`bits = 32`) -/
-def showFloat (bits : Nat) (x : Float) : String :=
-  if x.isNaN then "NaN"
-  else if x.isInf then (if x > 0 then "+Inf" else "-Inf")
-  else
-    let (neg, frac, ex, p, bias) : Bool × Nat × Nat × Nat × Nat :=
-      if bits == 32 then
-        let b := x.toFloat32.toBits.toNat
-        (b / 2 ^ 31 == 1, b % 2 ^ 23, b / 2 ^ 23 % 2 ^ 8, 23, 127)
-      else
-        let b := x.toBits.toNat
-        (b / 2 ^ 63 == 1, b % 2 ^ 52, b / 2 ^ 52 % 2 ^ 11, 52, 1023)
-    if frac == 0 && ex == 0 then (if neg then "-0" else "0")
-    else
-      let (m, e) : Nat × Int :=
-        if ex == 0 then (frac, 1 - Int.ofNat bias - Int.ofNat p)
-        else (2 ^ p + frac, Int.ofNat ex - Int.ofNat bias - Int.ofNat p)
-      let lo := if frac == 0 && ex > 1 then 1 else 2
-      let (ds, dp) := shortestDigits m e lo
-      fmtG neg ds dp
+/-- "a readable decimal form": the shortest decimal that reads back as the same float, laid out as
+    Go's `%g` does (`Model/FloatFmt.lean`); floats are validated, not proved -/
+def showFloat (bits : Nat) (x : Float) : String := Goml.FloatFmt.goFormat bits x
 
 def utf8At (s : String) (i : Nat) : Option String :=
   let bs := s.toUTF8
@@ -305,6 +213,19 @@ def armMatches (lhs : Expr) (v : Val) : Bool :=
   | .prim p, v => (valEq (primVal p) v).getD false
   | _, _ => false
 
+/-- the enum a tag belongs to (`ImmTag { index, ty }` carries the enum type; `go/compile.rs`
+    finds the variant through it), so that a nullary constructor has the same value before and
+    after ANF turns it into a tag -/
+def tagTyName : Ty → String
+  | .enum n => n
+  | .app t _ => tagTyName t
+  | _ => ""
+
+/-- `&&` / `||` applied to a left operand that is not a boolean: no rule (the check happens
+    before the right operand is looked at, as in `if a { b } else { false }`) -/
+def logicalNonBool (op : BinOp) (a : Val) : Bool :=
+  (op == .and || op == .or) && !(match a with | .bool _ => true | _ => false)
+
 def bindParams : List String → List Val → Env → Env
   | x :: xs, v :: vs, ρ => bindParams xs vs ((x, v) :: ρ)
   | _, _, ρ => ρ
@@ -321,7 +242,7 @@ def eval (fuel : Nat) (P : Prog) (ρ : Env) (w : World) (e : Expr) : Res Val :=
     | some v => .ok v w
     | none => .ok (.fn x) w        -- a top-level function or builtin used as a value
   | .prim p => .ok (primVal p) w
-  | .tag idx _ => .ok (.enumV "" idx []) w
+  | .tag idx ty => .ok (.enumV (tagTyName ty) idx []) w
   | .constr c _ args =>
     match evalList fuel P ρ w args with
     | .fail f w => .fail f w
@@ -406,6 +327,7 @@ def eval (fuel : Nat) (P : Prog) (ρ : Env) (w : World) (e : Expr) : Res Val :=
       | .and, .bool false => .ok (.bool false) w
       | .or, .bool true => .ok (.bool true) w
       | _, _ =>
+        if logicalNonBool op a then .fail (.stuck "logical operator on a non-boolean") w else
         match eval fuel P ρ w r with
         | .fail f w => .fail f w
         | .ok b w =>
